@@ -5,7 +5,7 @@
 From Boreal Require Import Base.Prelude Spec.Regex Model.Hir Model.Widen Model.Validator Model.Raw Model.HirScan
   Model.Decomp Model.HexCase
   Proofs.HexScanProofs Proofs.ValidatorProofs Proofs.DecompProofs Proofs.HexProofs Proofs.RawProofs Proofs.WidenProofs
-  Proofs.SpanProofs Proofs.HexWitnesses.
+  Proofs.SpanProofs Proofs.HexWitnesses Proofs.HexOnePerOffset.
 From Coq Require Import Sorted.
 
 (* Ordered, one match per offset, for every regex string that goes through the Aho-Corasick pass. *)
@@ -13,6 +13,17 @@ Theorem C03_ac_scan_ascending :
   forall use_sp d mem max_nb,
     StronglySorted (fun a b => fst a < fst b) (ac_scan use_sp d mem max_nb).
 Proof. exact ac_scan_ascending. Qed.
+
+(* ... said directly, for regex strings too (same pass): the reported offsets are pairwise distinct, and
+   two reported matches at the same offset are the same match *)
+Theorem C03_offsets_distinct :
+  forall use_sp d mem max_nb, NoDup (map fst (ac_scan use_sp d mem max_nb)).
+Proof. exact ac_scan_offsets_distinct. Qed.
+
+Theorem C03_one_per_offset :
+  forall use_sp d mem max_nb x y,
+    In x (ac_scan use_sp d mem max_nb) -> In y (ac_scan use_sp d mem max_nb) -> fst x = fst y -> x = y.
+Proof. exact ac_scan_one_per_offset. Qed.
 
 (* greedy_sound: when the reverse part has a greedy repetition the end of every match is computed by
    the whole regex from the candidate start: every reported match is a member, with NO assumption on
@@ -161,3 +172,5 @@ Print Assumptions C03_nocase_negated_class_pinned_refuted.
 Print Assumptions C03_empty_class_pinned_refuted.
 Print Assumptions C03_length_by_arrival_refuted.
 Print Assumptions C03_wide_rev_context_refuted.
+Print Assumptions C03_offsets_distinct.
+Print Assumptions C03_one_per_offset.
